@@ -121,10 +121,11 @@ type symState struct {
 	conds     []symCond
 	innerStep string
 	innerSeen bool
+	inLoop    bool // the scan loop has been entered on this path
 }
 
 func (s *symState) clone() *symState {
-	n := &symState{conds: append([]symCond(nil), s.conds...), innerStep: s.innerStep, innerSeen: s.innerSeen}
+	n := &symState{conds: append([]symCond(nil), s.conds...), innerStep: s.innerStep, innerSeen: s.innerSeen, inLoop: s.inLoop}
 	for _, f := range s.stack {
 		nf := &symFrame{fn: f.fn, env: make(map[ssa.Value]interface{}, len(f.env)), call: f.call, blk: f.blk, prev: f.prev, idx: f.idx, onPath: map[*ssa.BasicBlock]int{}, havoc: map[*ssa.BasicBlock]bool{}}
 		for k, v := range f.havoc {
@@ -151,6 +152,8 @@ type symExec struct {
 	res     *symScanResult
 	undec   string
 	budget  int
+	root    *ssa.Function
+	entered map[string]bool
 	retMode bool // exploring from the loop exit to the return
 }
 
@@ -174,18 +177,32 @@ func (c *Ctx) symScan() *symScanResult {
 	mf := c.markerFacts(tmp)
 	// the scan loop: the header holds a phi initialised from the int parameter
 	// that is not the slice (startLoc)
+	// (the loop may sit in a helper the routine calls: the routine itself
+	// and the functions of the module it reaches are searched)
 	var header *ssa.BasicBlock
 	var iPhi *ssa.Phi
-	for _, b := range fn.Blocks {
-		for _, ins := range b.Instrs {
-			ph, ok := ins.(*ssa.Phi)
-			if !ok {
-				continue
-			}
-			for _, e := range ph.Edges {
-				if p, ok := e.(*ssa.Parameter); ok && p.Parent() == fn {
-					if bt, ok := p.Type().Underlying().(*types.Basic); ok && bt.Kind() == types.Int {
-						header, iPhi = b, ph
+	root := fn
+	cands := append([]*ssa.Function{fn}, sortedFns(c.reach(fn, false))...)
+	for _, g := range cands {
+		if header != nil || g.Blocks == nil || !c.P.InModule(g) {
+			continue
+		}
+		for _, b := range g.Blocks {
+			for _, ins := range b.Instrs {
+				ph, ok := ins.(*ssa.Phi)
+				if !ok {
+					continue
+				}
+				for _, e := range ph.Edges {
+					if p, ok := e.(*ssa.Parameter); ok && p.Parent() == g {
+						if bt, ok := p.Type().Underlying().(*types.Basic); ok && bt.Kind() == types.Int {
+							// it must be a loop header whose condition compares the phi with len(...)
+							if iff, ok := b.Instrs[len(b.Instrs)-1].(*ssa.If); ok {
+								if bo, ok := iff.Cond.(*ssa.BinOp); ok && bo.Op == token.LSS && bo.X == ssa.Value(ph) {
+									header, iPhi = b, ph
+								}
+							}
+						}
 					}
 				}
 			}
@@ -195,6 +212,7 @@ func (c *Ctx) symScan() *symScanResult {
 		res.why = "no loop index initialised from an int parameter"
 		return res
 	}
+	fn = header.Parent()
 	// natural loop of the header
 	loop := map[*ssa.BasicBlock]bool{header: true}
 	var work []*ssa.BasicBlock
@@ -260,54 +278,12 @@ func (c *Ctx) symScan() *symScanResult {
 		return res
 	}
 	res.init = map[string]string{}
-	for ph, role := range roles {
-		for i, p := range header.Preds {
-			if loop[p] {
-				continue
-			}
-			e := ph.Edges[i]
-			switch {
-			case e == input:
-				res.init[role] = "B"
-			default:
-				if cst, ok := e.(*ssa.Const); ok && cst.Value != nil {
-					res.init[role] = cst.Value.String()
-				} else if pa, ok := e.(*ssa.Parameter); ok {
-					res.init[role] = "param:" + pa.Name()
-				} else {
-					res.init[role] = e.Name()
-				}
-			}
-		}
-	}
-	ex := &symExec{c: c, mf: mf, header: header, loop: loop, roles: roles, input: input, res: res, budget: 4000}
+	ex := &symExec{c: c, mf: mf, header: header, loop: loop, roles: roles, input: input, res: res, budget: 6000, root: root}
 	res.markers["START"] = len(string(mf.start))
 	res.markers["END"] = len(string(mf.end))
-	// one iteration: from the header with the loop condition true
-	mk := func() *symState {
-		f := &symFrame{fn: fn, env: map[ssa.Value]interface{}{}, onPath: map[*ssa.BasicBlock]int{}}
-		for ph, role := range roles {
-			switch role {
-			case "RES":
-				f.env[ph] = symBytes{"RES"}
-			case "COPIED":
-				f.env[ph] = symBool("COPIED")
-			default:
-				f.env[ph] = symInt{base: role}
-			}
-		}
-		return &symState{stack: []*symFrame{f}}
-	}
-	st := mk()
-	f := st.stack[0]
-	f.blk, f.prev, f.idx = header, nil, 0
-	// skip the phis of the header (bound above), evaluate the rest
-	for i, ins := range header.Instrs {
-		if _, ok := ins.(*ssa.Phi); !ok {
-			f.idx = i
-			break
-		}
-	}
+	// from the entry of the routine; the scan loop is entered on the way
+	f := &symFrame{fn: root, env: map[ssa.Value]interface{}{}, onPath: map[*ssa.BasicBlock]int{}, blk: root.Blocks[0]}
+	st := &symState{stack: []*symFrame{f}}
 	ex.run(st)
 	if ex.undec != "" {
 		res.why = ex.undec
@@ -332,6 +308,46 @@ func (c *Ctx) symScan() *symScanResult {
 		}
 	}
 	return res
+}
+
+// rename calls the byte sequence named old "B" in every value of the state.
+func (ex *symExec) rename(st *symState, old string) {
+	for _, f := range st.stack {
+		for k, v := range f.env {
+			f.env[k] = renameVal(v, old)
+		}
+	}
+}
+
+func renameVal(v interface{}, old string) interface{} {
+	rs := func(t string) string {
+		t = strings.ReplaceAll(t, "len("+old+")", "LEN")
+		return strings.ReplaceAll(t, old, "B")
+	}
+	switch x := v.(type) {
+	case symBytes:
+		out := make(symBytes, len(x))
+		for i, p := range x {
+			out[i] = rs(p)
+		}
+		if len(out) == 1 && out[0] == "B[0:LEN]" {
+			out[0] = "B"
+		}
+		return out
+	case symInt:
+		return symInt{rs(x.base), x.off}
+	case symBool:
+		return symBool(rs(string(x)))
+	case symOpaque:
+		return symOpaque(rs(string(x)))
+	case symTuple:
+		out := make(symTuple, len(x))
+		for i, e := range x {
+			out[i] = renameVal(e, old)
+		}
+		return out
+	}
+	return v
 }
 
 func (ex *symExec) fail(msg string) {
@@ -633,7 +649,11 @@ func (ex *symExec) run(st *symState) {
 				rv = tv
 			}
 			if len(st.stack) == 1 {
-				ex.res.paths = append(ex.res.paths, symPath{kind: "exit", conds: st.conds, ret: rv, where: ex.c.P.Pos(x.Pos())})
+				kind := "exit"
+				if !st.inLoop {
+					kind = "early" // returned before the scan loop was reached
+				}
+				ex.res.paths = append(ex.res.paths, symPath{kind: kind, conds: st.conds, ret: rv, where: ex.c.P.Pos(x.Pos())})
 				return
 			}
 			st.stack = st.stack[:len(st.stack)-1]
@@ -660,18 +680,75 @@ func (condMeta) Pos() token.Pos                { return token.NoPos }
 
 // enter moves the top frame to block b; false when the path ends there.
 func (ex *symExec) enter(st *symState, f *symFrame, b *ssa.BasicBlock) bool {
-	if len(st.stack) == 1 && b == ex.header {
-		// end of the iteration: the values the header phis receive
-		next := map[string]interface{}{}
+	if b == ex.header && f.fn == ex.header.Parent() {
+		vals := map[string]interface{}{}
 		for ph, role := range ex.roles {
 			for i, p := range ex.header.Preds {
 				if p == f.blk {
-					next[role] = ex.eval(f, ph.Edges[i])
+					vals[role] = ex.eval(f, ph.Edges[i])
 				}
 			}
 		}
-		ex.res.paths = append(ex.res.paths, symPath{kind: "back", conds: st.conds, next: next, where: blockPos(ex.c, f.blk), innerStep: st.innerStep})
-		return false
+		if ex.loop[f.blk] {
+			// end of an iteration: the values the header phis receive
+			if !st.inLoop {
+				return false
+			}
+			ex.res.paths = append(ex.res.paths, symPath{kind: "back", conds: st.conds, next: vals, where: blockPos(ex.c, f.blk), innerStep: st.innerStep})
+			return false
+		}
+		// first entry: whatever the input is here is called B from now on;
+		// the initial values are noted and the loop-carried variables become
+		// the symbols of an arbitrary iteration
+		in := ex.eval(f, ex.input)
+		if ib, ok := in.(symBytes); ok && len(ib) == 1 && ib[0] != "B" {
+			ex.rename(st, ib[0])
+			for k, v := range vals {
+				vals[k] = renameVal(v, ib[0])
+			}
+		}
+		var key []string
+		for role, v := range vals {
+			key = append(key, role+"="+fmt.Sprint(v))
+		}
+		sort.Strings(key)
+		k := strings.Join(key, ";")
+		if ex.entered == nil {
+			ex.entered = map[string]bool{}
+		}
+		if ex.entered[k] {
+			return false // the loop was already explored from this very state
+		}
+		ex.entered[k] = true
+		if len(ex.entered) > 1 {
+			ex.fail("the scan loop is entered with different initial values on different paths: " + k)
+			return false
+		}
+		for role, v := range vals {
+			ex.res.init[role] = fmt.Sprint(v)
+		}
+		st.conds = nil // what was decided before the loop does not concern the steps
+		st.innerStep, st.innerSeen = "", false
+		st.inLoop = true
+		first := 0
+		for i, ins := range b.Instrs {
+			ph, ok := ins.(*ssa.Phi)
+			if !ok {
+				first = i
+				break
+			}
+			switch role := ex.roles[ph]; role {
+			case "RES":
+				f.env[ph] = symBytes{"RES"}
+			case "COPIED":
+				f.env[ph] = symBool("COPIED")
+			default:
+				f.env[ph] = symInt{base: role}
+			}
+		}
+		f.prev, f.blk, f.idx = f.blk, b, first
+		f.onPath = map[*ssa.BasicBlock]int{}
+		return true
 	}
 	f.onPath[f.blk]++
 	if f.onPath[b] > 0 && b != ex.header {
